@@ -33,15 +33,17 @@ Section Ingest.
   Lemma parse_cols_inv het src l a :
     parse_cols fok het src l = POk a ->
     exists serial c16 c21 resseq c26,
+      rec_name l = (if het then "HETATM" else "ATOM") /\
       py_int (slice 6 11 l) = Some serial /\ String.get 16 l = Some c16 /\
       String.get 21 l = Some c21 /\ py_int (slice 22 26 l) = Some resseq /\
       String.get 26 l = Some c26 /\
-      a = mkA het (first_token l) serial (strip (slice 12 16 l)) (char_field c16)
+      a = mkA het (rec_name l) serial (strip (slice 12 16 l)) (char_field c16)
               (strip (slice 17 20 l)) (char_field c21) resseq (char_field c26)
               (strip (slice 30 38 l)) (strip (slice 38 46 l)) (strip (slice 46 54 l)) src.
   Proof.
     unfold parse_cols.
-    destruct (negb (rec_name l =? (if het then "HETATM" else "ATOM"))); [discriminate|].
+    destruct (rec_name l =? (if het then "HETATM" else "ATOM")) eqn:Ern; [|discriminate].
+    apply String.eqb_eq in Ern. cbn [negb].
     destruct (py_int (slice 6 11 l)) as [serial|]; [|discriminate].
     destruct (String.get 16 l) as [c16|]; [|discriminate].
     destruct (String.get 21 l) as [c21|]; [|destruct het; discriminate].
@@ -49,7 +51,8 @@ Section Ingest.
     destruct (String.get 26 l) as [c26|]; [|destruct het; discriminate].
     destruct (fok (strip (slice 30 38 l)) && fok (strip (slice 38 46 l)) && fok (strip (slice 46 54 l)));
       [|discriminate].
-    intros H. injection H as H. exists serial, c16, c21, resseq, c26. repeat split. symmetry; exact H.
+    intros H. injection H as H. exists serial, c16, c21, resseq, c26. repeat split; try exact Ern.
+    symmetry; exact H.
   Qed.
 
   (* what a coordinate line of the specification becomes *)
@@ -68,7 +71,7 @@ Section Ingest.
 
   Lemma coord_line raw :
     g_line fok raw = true -> is_coord raw = true ->
-    exists a, line_recs fok raw = [RAtom a] /\ reads a raw.
+    exists a, line_recs fok raw = [RAtom a] /\ reads a raw /\ tok0_ok a = true.
   Proof.
     intros Hg Hc.
     assert (H3 : mem_str (rec_name raw) three = true).
@@ -91,7 +94,7 @@ Section Ingest.
     unfold line_outcome. rewrite Hk. cbn [negb].
     assert (Fin : forall het a, parse_cols fok het s s = POk a -> reads a raw).
     { intros het a Hp. destruct (parse_cols_inv _ _ _ _ Hp)
-        as [serial [c16 [c21 [resseq [c26 [I1 [G16 [G21 [I2 [G26 Ea]]]]]]]]]].
+        as [serial [c16 [c21 [resseq [c26 [_ [I1 [G16 [G21 [I2 [G26 Ea]]]]]]]]]]].
       subst a. unfold reads, rident, line_ident. cbn [a_src a_chain a_resseq a_icode a_name a_resname a_serial a_x a_y a_z].
       split; [exact Es|].
       rewrite Ew.
@@ -99,12 +102,16 @@ Section Ingest.
       rewrite (py_int_ext (slice 6 11 (s ++ w)%string) (slice 6 11 s)) by (apply strip_slice_app_ws; exact Hw).
       rewrite !(strip_slice_app_ws _ _ s w Hw).
       rewrite !slice1_get, G21, G26. rewrite I1, I2. unfold char_field. repeat split. }
+    assert (Fin2 : forall het a, parse_cols fok het s s = POk a -> tok0_ok a = true).
+    { intros het a Hp. destruct (parse_cols_inv _ _ _ _ Hp)
+        as [serial [c16 [c21 [resseq [c26 [Ern [_ [_ [_ [_ [_ Ea]]]]]]]]]]].
+      subst a. unfold tok0_ok. cbn [a_tok0]. rewrite Ern. destruct het; reflexivity. }
     destruct (rec_name s =? "ATOM") eqn:E1.
     - unfold atom_outcome. destruct (parse_cols fok false s s) as [a| |] eqn:Ep; try discriminate.
-      exists a. split; [reflexivity | apply (Fin false); exact Ep].
+      exists a. split; [reflexivity | split; [apply (Fin false) | apply (Fin2 false)]; exact Ep].
     - destruct (rec_name s =? "HETATM") eqn:E2.
       + unfold atom_outcome. destruct (parse_cols fok true s s) as [a| |] eqn:Ep; try discriminate.
-        exists a. split; [reflexivity | apply (Fin true); exact Ep].
+        exists a. split; [reflexivity | split; [apply (Fin true) | apply (Fin2 true)]; exact Ep].
       + exfalso. unfold is_coord in Hc. rewrite En in Hc. simpl in Hc. rewrite E1, E2 in Hc. discriminate.
   Qed.
 
@@ -292,7 +299,7 @@ Section Ingest.
     induction ls as [|l r IH]; intros Hg; simpl; [constructor|].
     simpl in Hg. apply andb_true_iff in Hg as [Hl Hr]. rewrite atoms_of_app.
     destruct (is_coord l) eqn:Ec.
-    - destruct (coord_line l Hl Ec) as [a [E R]]. rewrite E. simpl. constructor; [exact R | apply IH; exact Hr].
+    - destruct (coord_line l Hl Ec) as [a [E [R _]]]. rewrite E. simpl. constructor; [exact R | apply IH; exact Hr].
     - rewrite (noncoord_line l Hl Ec). simpl. apply IH; exact Hr.
   Qed.
 
@@ -340,11 +347,10 @@ Section Ingest.
       Permutation (map a_src (all_atoms rs)) (map strip (cols_read lines)).
   Proof.
     unfold guard. intros H. apply andb_true_iff in H as [Hg H]. cbv zeta in H.
-    apply andb_true_iff in H as [H Hseg]. apply andb_true_iff in H as [Hin Hnm].
-    apply andb_true_iff in Hseg as [Hdis Hal].
+    apply andb_true_iff in H as [Hin Hal].
     destruct (read_guarded lines Hg) as [e Er].
     destruct (group_complete string a_src (fun _ _ => eq_refl) (fun _ _ => eq_refl)
-                (fun _ _ => eq_refl) (fun _ _ => eq_refl) tab _ Hin Hnm Hdis Hal) as [rs [Gr P]].
+                (fun _ _ => eq_refl) (fun _ _ => eq_refl) tab _ Hin Hal) as [rs [Gr P]].
     exists rs. split.
     - unfold ingest. rewrite Er, Gr. reflexivity.
     - rewrite <- (reads_src _ _ (spec_atoms lines Hg)). exact P.
@@ -367,11 +373,10 @@ Section Ingest.
         a_z a = strip (slice 46 54 l).
   Proof.
     unfold guard. intros H Hi a Ha. apply andb_true_iff in H as [Hg H]. cbv zeta in H.
-    apply andb_true_iff in H as [H Hseg]. apply andb_true_iff in H as [Hin Hnm].
-    apply andb_true_iff in Hseg as [Hdis Hal].
+    apply andb_true_iff in H as [Hin Hal].
     destruct (read_guarded lines Hg) as [e Er].
     destruct (group_complete _ fields (fun _ _ => eq_refl) (fun _ _ => eq_refl)
-                (fun _ _ => eq_refl) (fun _ _ => eq_refl) tab _ Hin Hnm Hdis Hal) as [rs' [Gr P]].
+                (fun _ _ => eq_refl) (fun _ _ => eq_refl) tab _ Hin Hal) as [rs' [Gr P]].
     unfold ingest in Hi. rewrite Er, Gr in Hi. injection Hi as Hi. subst rs'.
     assert (Hf : In (fields a) (map fields (all_atoms rs))) by (apply in_map; exact Ha).
     apply (Permutation_in _ P) in Hf. apply in_map_iff in Hf as [b [Eb Hb]].
@@ -412,8 +417,9 @@ Section Ingest.
 
   (* ---- later models ------------------------------------------------------------------------------ *)
 
-  Lemma gstep_inert nch nch' st r :
-    rec_inert nch r = true -> rec_inert nch' r = true -> gstep tab nch st r = gstep tab nch' st r.
+  Lemma gstep_inert nch nch' fr fr' st r :
+    rec_inert nch r = true -> rec_inert nch' r = true ->
+    gstep tab nch fr st r = gstep tab nch' fr' st r.
   Proof.
     destruct r as [a| | |]; try reflexivity. cbn [rec_inert gstep]. intros H1 H2.
     apply negb_true_iff in H1, H2. rewrite H1, H2. reflexivity.
@@ -423,55 +429,50 @@ Section Ingest.
   Proof. unfold flush. destruct (g_prev st); split; reflexivity. Qed.
 
   Lemma flush_chains_nm st n :
-    g_chains (flush tab (mkG (g_prev st) (g_res st) n (g_count st) (g_chains st))) = g_chains (flush tab st).
+    g_chains (flush tab (mkG (g_prev st) (g_res st) n (g_count st) (g_chains st) (g_placed st))) =
+    g_chains (flush tab st).
   Proof. unfold flush. cbn [g_prev g_res g_chains g_count]. destruct (g_prev st); reflexivity. Qed.
 
-  Lemma gloop_fm nch nch' recs : forall st,
+  (* the loop on the whole record list = the loop on the records in front of the
+     second MODEL record (since the C07-F3 fix: whatever is pending there) *)
+  Lemma gloop_fm nch nch' fr fr' recs : forall st,
     pend_ok st -> g_nm st <= 1 ->
     forallb (rec_inert nch) recs = true -> forallb (rec_inert nch') recs = true ->
-    nm_ok (g_nm st) (negb (is_nil (g_res st))) recs = true ->
-    option_map g_chains (gloop tab nch st recs) =
-    option_map g_chains (gloop tab nch' st (fm (g_nm st) recs)).
+    option_map g_chains (gloop tab nch fr st recs) =
+    option_map g_chains (gloop tab nch' fr' st (fm (g_nm st) recs)).
   Proof.
-    induction recs as [|r rest IH]; intros st Hp Hn H1 H2 Hok; [reflexivity|].
+    induction recs as [|r rest IH]; intros st Hp Hn H1 H2; [reflexivity|].
     cbn [forallb] in H1, H2. apply andb_true_iff in H1 as [R1 H1]. apply andb_true_iff in H2 as [R2 H2].
     destruct r as [a| | |].
-    - cbn [fm gloop]. rewrite <- (gstep_inert nch nch' st (RAtom a) R1 R2).
-      destruct (gstep_atom tab nch st a R1 Hp) as [st3 [G3 [Hp3 [Nm3 M]]]].
-      rewrite G3. rewrite <- Nm3. apply IH; try assumption; [lia|].
-      rewrite Nm3. cbn [nm_ok] in Hok.
-      assert (E : is_nil (g_res st3) = false).
-      { destruct (last_atom (g_res st)) as [q|]; [destruct (same_key a q)|]; destruct M as [M1 _]; rewrite M1.
-        - destruct (g_res st); reflexivity.
-        - reflexivity.
-        - reflexivity. }
-      rewrite E. exact Hok.
-    - cbn [fm gloop gstep]. cbn [nm_ok] in Hok.
-      apply (IH (mkG (g_prev st) (g_res st) (g_nm st) (S (g_count st)) (g_chains st))); assumption.
-    - cbn [fm gloop gstep]. cbn [nm_ok] in Hok.
-      set (st1 := clear_res (if is_nil (g_res st) then st else flush tab st)).
+    - cbn [fm gloop]. rewrite <- (gstep_inert nch nch' fr fr' st (RAtom a) R1 R2).
+      destruct (gstep_atom tab nch fr st a R1 Hp) as [st3 [G3 [Hp3 [Nm3 _]]]].
+      rewrite G3. rewrite <- Nm3. apply IH; try assumption; lia.
+    - cbn [fm gloop gstep].
+      apply (IH (mkG (g_prev st) (g_res st) (g_nm st) (S (g_count st)) (g_chains st) (g_placed st)));
+        assumption.
+    - cbn [fm gloop gstep].
+      set (st1 := clear_res (if is_nil (g_res st) then st else flush tab (place st))).
       assert (N1 : g_nm st1 = g_nm st).
-      { unfold st1, clear_res. cbn [g_nm]. destruct (is_nil (g_res st)); [reflexivity | apply flush_nm]. }
+      { unfold st1, clear_res. cbn [g_nm]. destruct (is_nil (g_res st)); [reflexivity|].
+        destruct (flush_nm (place st)) as [F _]. rewrite F. reflexivity. }
       rewrite <- N1. apply IH; try assumption.
       + intros H. exfalso. apply H. reflexivity.
       + lia.
-      + rewrite N1. exact Hok.
-    - cbn [fm gloop gstep nm_ok] in *.
-      set (st1 := mkG (g_prev st) (g_res st) (S (g_nm st)) (g_count st) (g_chains st)).
+    - cbn [fm gloop gstep].
+      set (st1 := mkG (g_prev st) (g_res st) (S (g_nm st)) (g_count st) (g_chains st) (g_placed st)).
       change (g_res st1) with (g_res st). change (g_nm st1) with (S (g_nm st)).
       destruct (1 <=? g_nm st)%nat eqn:E1.
       + (* second MODEL: break; on the cut list the loop ends and flushes *)
-        apply negb_true_iff in Hok. rewrite Hok.
         apply Nat.leb_le in E1. assert (E2 : (1 <? S (g_nm st))%nat = true) by (apply Nat.ltb_lt; lia).
-        rewrite E2. cbn [gloop]. unfold gfinish. rewrite Hok.
-        assert (E3 : (g_nm st <=? 1)%nat = true) by (apply Nat.leb_le; lia). rewrite E3.
-        cbn [negb andb option_map]. f_equal. apply flush_chains_nm.
+        rewrite E2. cbn [gloop]. unfold gfinish.
+        assert (E3 : (g_nm st <=? 1)%nat = true) by (apply Nat.leb_le; lia). rewrite E3, andb_true_r.
+        destruct (is_nil (g_res st)); cbn [negb option_map]; [reflexivity|].
+        f_equal. apply flush_chains_nm.
       + apply Nat.leb_gt in E1. assert (E0 : g_nm st = 0) by lia.
         assert (E2 : (1 <? S (g_nm st))%nat = false) by (rewrite E0; reflexivity). rewrite E2.
-        assert (Est : (if is_nil (g_res st) then GCont st1 else GCont st1) = GCont st1)
-          by (destruct (is_nil (g_res st)); reflexivity).
-        rewrite Est. cbn [gloop gstep g_res g_nm]. fold st1. rewrite E2, Est.
-        apply (IH st1); try assumption; try exact Hp; try (unfold st1; cbn [g_nm]; lia).
+        cbn [gloop gstep g_res g_nm]. fold st1. 
+        change (g_res st1) with (g_res st). change (g_nm st1) with (S (g_nm st)). rewrite E2.
+        apply (IH st1); try assumption; try exact Hp; unfold st1; cbn [g_nm]; lia.
   Qed.
 
   Lemma count_ter_fm nm recs : count_ter (fm nm recs) <= count_ter recs.
@@ -483,16 +484,18 @@ Section Ingest.
   Qed.
 
   Theorem group_first_model recs :
-    inert recs = true -> nm_ok 0 false recs = true -> group tab recs = group tab (fm 0 recs).
+    inert recs = true -> group tab recs = group tab (fm 0 recs).
   Proof.
-    intros Hin Hok. unfold group.
+    intros Hin. unfold group.
     assert (R1 : forallb (rec_inert (1 + count_ter recs)) recs = true)
       by (apply inert_rec_inert; [lia | exact Hin]).
     assert (R2 : forallb (rec_inert (1 + count_ter (fm 0 recs))) recs = true).
     { apply inert_rec_inert; [|exact Hin]. intros H. pose proof (count_ter_fm 0 recs). lia. }
-    pose proof (gloop_fm _ _ recs g0 (fun H => False_ind _ (H eq_refl)) (Nat.le_0_l 1) R1 R2 Hok) as E.
+    pose proof (gloop_fm _ _ (free_ids recs) (free_ids (fm 0 recs)) recs g0
+                  (fun H => False_ind _ (H eq_refl)) (Nat.le_0_l 1) R1 R2) as E.
     cbn [g_nm g0] in E.
-    destruct (gloop tab (1 + count_ter recs) g0 recs), (gloop tab (1 + count_ter (fm 0 recs)) g0 (fm 0 recs));
+    destruct (gloop tab (1 + count_ter recs) (free_ids recs) g0 recs),
+      (gloop tab (1 + count_ter (fm 0 recs)) (free_ids (fm 0 recs)) g0 (fm 0 recs));
       simpl in E; try discriminate; [injection E as E; rewrite E|]; reflexivity.
   Qed.
 
@@ -500,15 +503,14 @@ Section Ingest.
     guard_models fok lines = true ->
     ingest fok tab false lines = ingest fok tab false (first_model false lines).
   Proof.
-    unfold guard_models. intros H. apply andb_true_iff in H as [Hg H]. cbv zeta in H.
-    apply andb_true_iff in H as [Hin Hok].
+    unfold guard_models. intros H. apply andb_true_iff in H as [Hg Hin].
     destruct (read_guarded lines Hg) as [e Er].
     assert (Hg' : forallb (g_line fok) (first_model false lines) = true).
     { eapply forallb_sub; [|exact Hg]. intros x. apply first_model_sub. }
     destruct (read_guarded _ Hg') as [e' Er'].
     unfold ingest. rewrite Er, Er'.
     rewrite <- (fm_first_model lines 0 false) by auto.
-    rewrite (group_first_model _ Hin Hok). reflexivity.
+    rewrite (group_first_model _ Hin). reflexivity.
   Qed.
 
   (* ---- drop-water ------------------------------------------------------------------------------------- *)
@@ -525,17 +527,14 @@ Section Ingest.
 
   Lemma drop_water_lines lines :
     forallb (g_line fok) lines = true ->
-    forallb tok0_ok (atoms_of (flat_map (line_recs fok) lines)) = true ->
     drop_water (flat_map (line_recs fok) lines) =
     flat_map (line_recs fok) (filter (fun l => negb (is_water_line l)) lines).
   Proof.
-    induction lines as [|l r IH]; intros Hg Ht; [reflexivity|].
+    induction lines as [|l r IH]; intros Hg; [reflexivity|].
     simpl in Hg. apply andb_true_iff in Hg as [Hl Hr]. cbn [flat_map] in *.
-    rewrite atoms_of_app, forallb_app in Ht. apply andb_true_iff in Ht as [Tl Tr].
-    rewrite drop_water_app, (IH Hr Tr). cbn [filter].
+    rewrite drop_water_app, (IH Hr). cbn [filter].
     destruct (is_coord l) eqn:Ec.
-    - destruct (coord_line l Hl Ec) as [a [E [_ [_ [Rn _]]]]].
-      rewrite E in Tl. simpl in Tl. rewrite andb_true_r in Tl.
+    - destruct (coord_line l Hl Ec) as [a [E [[_ [_ [Rn _]]] Tl]]].
       destruct (mem_str (strip (slice 17 20 l)) water_names) eqn:Ew.
       + assert (Wl : is_water_line l = true) by (unfold is_water_line; rewrite Ec, Ew; reflexivity).
         rewrite Wl. cbn [negb]. rewrite E. unfold drop_water at 1.
@@ -551,16 +550,16 @@ Section Ingest.
   Qed.
 
   Theorem drop_water_is_deletion lines :
-    guard_water fok lines = true ->
+    forallb (g_line fok) lines = true ->
     ingest fok tab true lines =
     ingest fok tab false (filter (fun l => negb (is_water_line l)) lines).
   Proof.
-    unfold guard_water. intros H. apply andb_true_iff in H as [Hg Ht].
+    intros Hg.
     destruct (read_guarded lines Hg) as [e Er].
     assert (Hg' : forallb (g_line fok) (filter (fun l => negb (is_water_line l)) lines) = true).
     { eapply forallb_sub; [|exact Hg]. intros x Hx. apply filter_In in Hx. tauto. }
     destruct (read_guarded _ Hg') as [e' Er'].
-    unfold ingest. rewrite Er, Er'. rewrite (drop_water_lines lines Hg Ht). reflexivity.
+    unfold ingest. rewrite Er, Er'. rewrite (drop_water_lines lines Hg). reflexivity.
   Qed.
 
 End Ingest.
